@@ -1122,6 +1122,11 @@ def _selftest_openssl(counts):
                         "CMAC"], m).decode().strip()
         _check(bytes.fromhex(got) == cmac(c, m), "openssl CMAC mismatch key=%s msg=%s", key.hex(), m.hex())
         n += 1
+        if i < 3:       # RFC 5297: S2V of an empty vector is AES-CMAC(K, <one>), <one> = 0^127 | 1
+            got = _openssl(["mac", "-cipher", "aes-%d-cbc" % bits, "-macopt", "hexkey:" + key.hex(),
+                            "CMAC"], bytes(15) + b"\x01").decode().strip()
+            _check(bytes.fromhex(got) == s2v(c, []), "S2V with no strings")
+            n += 1
 
         # key wrap
         kd = rnd.randbytes(8 * rnd.randrange(2, 12))
